@@ -82,6 +82,16 @@ class C18(Prop):
 
     def gen(self, rng, i, tier):
         c = self.gen0(rng, i, tier)
+        if i % 7 == 6 and c["edges"] and c["shape"] != "star":
+            # a multigraph: some bonds are doubled or tripled (each parallel bond is kept or dropped on its own)
+            extra = []
+            for e in c["edges"]:
+                if e[0] != e[1] and rng.random() < 0.4:
+                    extra += [list(e) if rng.random() < 0.5 else [e[1], e[0]]] * rng.randint(1, 2)
+            c["edges"] += extra
+            c["draws"] += [rs(Fraction(rng.randint(0, 9), 10)) for _ in extra]
+            c["multi"] = True
+            c["shape"] = "random"
         if i % 3 == 0 and len(c["edges"]) > LAW_MAX_EDGES:          # keep a third of the cases small enough for the exact law
             keep = set(rng.sample(range(len(c["edges"])), LAW_MAX_EDGES))
             c["edges"] = [e for k, e in enumerate(c["edges"]) if k in keep]
@@ -126,21 +136,25 @@ class C18(Prop):
         import networkx as nx
         import random
         from gcmpy.tools.bond_percolate import bond_percolate
-        g = nx.Graph()
+        multi = bool(case.get("multi"))
+        g = nx.MultiGraph() if multi else nx.Graph()
         g.add_nodes_from(case["nodes"])
         g.add_edges_from([tuple(e) for e in case["edges"]])
         # the input carries data on vertices, edges and the graph itself: "untouched" includes all of it
         g.graph["name"] = "input"
         for k, v in enumerate(g.nodes()):
             g.nodes[v]["joint_degree"] = (k, 1)
-        for k, (a, b) in enumerate(g.edges()):
-            g.edges[a, b]["weight"] = k + 0.5
-            g.edges[a, b]["topology"] = "2-clique"
-        order = [list(e) for e in g.edges()]
-        by_edge = {}
-        for e, d in zip(case["edges"], case["draws"]):
-            by_edge.setdefault(tuple(sorted(e)), d)
-        seq = [Ex(by_edge[tuple(sorted(e))]) for e in order]
+        for k, e in enumerate(g.edges(keys=True) if multi else g.edges()):
+            g.edges[e]["weight"] = k + 0.5
+            g.edges[e]["topology"] = "2-clique"
+        order = [list(e) for e in g.edges()]              # parallel edges of a multigraph are listed once each
+        if multi:
+            seq = [Ex(d) for d in case["draws"]][:len(order)] + [Ex(Fraction(1, 2))] * max(0, len(order) - len(case["draws"]))
+        else:
+            by_edge = {}
+            for e, d in zip(case["edges"], case["draws"]):
+                by_edge.setdefault(tuple(sorted(e)), d)
+            seq = [Ex(by_edge[tuple(sorted(e))]) for e in order]
         class R(SemanticRandom):
             def __init__(self, decide=None):
                 super().__init__()
@@ -153,7 +167,8 @@ class C18(Prop):
                 return self.used[-1] if self.used[-1] is not None else Ex(Fraction(1, 2))
         import copy
         snap = lambda: copy.deepcopy((dict(g.graph), list(g.nodes(data=True)),
-                                      sorted((tuple(sorted((a, b))), sorted(d.items())) for a, b, d in g.edges(data=True))))
+                                      sorted((tuple(sorted((a, b))), sorted(d.items())) for a, b, d in g.edges(data=True)),
+                                      type(g).__name__))
         before = snap()
         sem = R()
         with installed(sem):
